@@ -171,6 +171,20 @@ def expect_table(p, R):
   return {'cols': ref.header(p), 'rows': sqlworld.rows_key(rows)}
 
 
+def fails_without_grounding(prog, preds, exc):
+  """Does the same request fail in the same way with no @Ground, no attached file, no history?"""
+  plain = dict(prog, ground=[], ground_table={}, attach=None, noise=[])
+  try:
+    lrun.fresh_process()
+    comp = lrun.compiled(gen.render(plain), preds, use_cache=False)
+    lrun.run_concertina(sqlworld.World(), comp, preds)
+  except Exception as e2:
+    return type(e2).__name__ == type(exc).__name__ or type(exc).__name__ == 'CliExit'
+  finally:
+    lrun.fresh_process()
+  return False
+
+
 def run_history(case, scratch):
   """Executes the history; returns (violations, info)."""
   lrun.fresh_process()      # one case = the life of one (simulated) process
@@ -332,6 +346,13 @@ def run_history(case, scratch):
       prev_kind = 'faulted-run' if exc is not None else 'run'
       if exc is not None:
         if not world.fired:
+          # C17 speaks of grounded tables and of repeated runs: a program that cannot be run even
+          # with nothing grounded, on an empty in-memory database, fails for reasons of its own
+          # (seed sweep 51: a predicate name of 100+ characters read through two WITH tables gives
+          # "duplicate WITH table name"). Such a case is discarded and counted, not reported.
+          if fails_without_grounding(prog, preds, exc):
+            info['discard'] = 'program fails without grounding too: %s' % type(exc).__name__
+            return [], info
           V('engine-error', type(exc).__name__, 'run failed without an injected fault: %s: %s' % (type(exc).__name__, str(exc)[:300]), i)
           continue
         # narrow relaxation: only atomicity is demanded of an aborted run
